@@ -56,6 +56,15 @@ func main() {
 			re, _, _ := process.NewRuntimeEnvironment()
 			re.Color = false
 			re.Typechecked = true
+			switch os.Getenv("PROBE_MODE") { // default: asynchronous polarised
+			case "np":
+				re.ExecutionVersion = process.NON_POLARIZED_SYNC
+			case "sync":
+				re.ExecutionVersion = process.NORMAL_SYNC
+			}
+			if os.Getenv("PROBE_DELAY") == "" {
+				re.Delay = 0
+			}
 			process.InitializeProcesses(procs, genv, nil, re)
 			fmt.Println("FINISHED")
 		}
